@@ -3,10 +3,12 @@
 package verifharness
 
 import (
-	"testing"
+	"fmt"
 	"strings"
+	"testing"
 
 	"github.com/protolambda/ztyp/tree"
+	"github.com/protolambda/ztyp/view"
 )
 
 func c02Obs(t *Ty, v *Val, h tree.HashFn) string {
@@ -82,6 +84,38 @@ func TestC02(t *testing.T) {
 	for _, k := range []uint64{1, 7, 8, 9, 33, 34, 64, 255, 256, 257, 512, 513} {
 		bitTys = append(bitTys, &Ty{Kind: "bitvec", N: k}, &Ty{Kind: "bitlist", N: k})
 	}
+	// the typed cast helpers As*(view, err): accept exactly their own kind of view, hand the
+	// value through, and propagate an error given to them
+	withCfg("sha", func(h tree.HashFn) {
+		ga := &gen{r: newRng(320), maxElem: 5}
+		helpers := []string{"uint8", "byte", "uint16", "uint32", "uint64", "uint256", "bool", "root", "smallbytevec", "bytes4", "bytes8", "bytes16",
+			"basiclist", "basicvector", "bitlist", "bitvector", "complexlist", "complexvector", "container", "union"}
+		var tys []*Ty
+		for _, nb := range []uint64{4, 8, 16, 5, 32} {
+			tys = append(tys, &Ty{Kind: "bytes", N: nb})
+		}
+		for k := 0; k < 60; k++ {
+			tys = append(tys, ga.ty(1+ga.r.Intn(2)))
+		}
+		for _, ty := range tys {
+			v := ga.val(ty)
+			for _, hp := range helpers {
+				for _, mode := range []string{"ok", "err"} {
+					obs := guard(func() string {
+						vw, err := buildView(ty, v)
+						if err != nil {
+							return "ERR"
+						}
+						if mode == "err" {
+							err = fmt.Errorf("upstream error")
+						}
+						return asCast(hp, vw, err, h)
+					})
+					out.emit("ascast", "ascast", []string{hp, ty.Sexp(), v.Sexp(), mode}, obs)
+				}
+			}
+		}
+	})
 	for ci, cfg := range []string{"sha", "alt"} {
 		g := &gen{r: newRng(int64(300 + ci)), noBool: false, maxElem: 40}
 		withCfg(cfg, func(h tree.HashFn) {
@@ -99,4 +133,94 @@ func TestC02(t *testing.T) {
 			}
 		})
 	}
+}
+
+// asCast applies one of the library's As* helpers to (v, err) and renders the result: basic
+// values as val s-expressions, composite views by their hash-tree-root.
+func asCast(helper string, v view.View, err error, h tree.HashFn) string {
+	basic := func(x view.View, e error) string {
+		if e != nil {
+			return "ERR"
+		}
+		s, e2 := readBasic(nil, x)
+		if e2 != nil {
+			return "ERR"
+		}
+		return "OK " + strings.ReplaceAll(s, " ", "_")
+	}
+	comp := func(x view.View, e error) string {
+		if e != nil {
+			return "ERR"
+		}
+		return "OK " + rootHex(x.HashTreeRoot(h))
+	}
+	arr := func(b []byte, e error) string {
+		if e != nil {
+			return "ERR"
+		}
+		return "OK (x_" + hexBytes(b) + ")"
+	}
+	switch helper {
+	case "uint8":
+		x, e := view.AsUint8(v, err)
+		return basic(x, e)
+	case "byte":
+		x, e := view.AsByte(v, err)
+		return basic(x, e)
+	case "uint16":
+		x, e := view.AsUint16(v, err)
+		return basic(x, e)
+	case "uint32":
+		x, e := view.AsUint32(v, err)
+		return basic(x, e)
+	case "uint64":
+		x, e := view.AsUint64(v, err)
+		return basic(x, e)
+	case "uint256":
+		x, e := view.AsUint256(v, err)
+		return basic(x, e)
+	case "bool":
+		x, e := view.AsBool(v, err)
+		return basic(x, e)
+	case "root":
+		x, e := view.AsRoot(v, err)
+		return arr(x[:], e)
+	case "smallbytevec":
+		x, e := view.AsSmallByteVec(v, err)
+		return arr(x, e)
+	case "bytes4":
+		x, e := view.AsBytes4(v, err)
+		return arr(x[:], e)
+	case "bytes8":
+		x, e := view.AsBytes8(v, err)
+		return arr(x[:], e)
+	case "bytes16":
+		x, e := view.AsBytes16(v, err)
+		return arr(x[:], e)
+	case "basiclist":
+		x, e := view.AsBasicList(v, err)
+		return comp(x, e)
+	case "basicvector":
+		x, e := view.AsBasicVector(v, err)
+		return comp(x, e)
+	case "bitlist":
+		x, e := view.AsBitList(v, err)
+		return comp(x, e)
+	case "bitvector":
+		x, e := view.AsBitVector(v, err)
+		return comp(x, e)
+	case "complexlist":
+		x, e := view.AsComplexList(v, err)
+		return comp(x, e)
+	case "complexvector":
+		x, e := view.AsComplexVector(v, err)
+		return comp(x, e)
+	case "container":
+		x, e := view.AsContainer(v, err)
+		return comp(x, e)
+	case "union":
+		x, e := view.AsUnion(v, err)
+		return comp(x, e)
+	}
+	return "ERR"
 }
